@@ -67,7 +67,10 @@ def dumpPre (mc nd : Nat) (p : Pre Float) : String :=
     let window := match p.windows[pos]? with
       | some (lo, hi) => s!"{lo}.{hi}"
       | none => "!"
-    s!"{o.idx}:{kindStr o.kind}:{monoStr o.mono}:{o.noteIdx}:{bitsStr o.delta}:{bitsStr o.start}:{bitsStr o.ratio}:{colour}:{rhythm}:{window}"
+    let looks := match p.lookups[pos]? with
+      | some l => joinWith "." (l.map fun (x : Option Nat) => match x with | some i => toString i | none => "-")
+      | none => "?"
+    s!"{o.idx}:{kindStr o.kind}:{monoStr o.mono}:{o.noteIdx}:{bitsStr o.delta}:{bitsStr o.start}:{bitsStr o.ratio}:{colour}:{rhythm}:{window}:{looks}"
   let reps := p.reps.zipIdx.map fun (rep, k) =>
     let iv := match p.repIntervals[k]? with | some v => toString v | none => "?"
     let alts := rep.map fun alt => joinD "/" (alt.map fun mono => joinD "," (mono.map objIdx))
